@@ -105,6 +105,53 @@ fn check_cross_only(prop: &'static str, tier: Tier) -> CheckOutcome {
     }
 }
 
+/// Opaque independence: the opaque is a correlation id that is echoed and nothing else.  Every
+/// history of the property's first alphabet is run on two stores with different opaque
+/// assignments; responses (modulo the echoed opaque) and stores must be equal after every command.
+fn opaque_differential(prop: &'static str, tier: Tier) -> CheckOutcome {
+    let t0 = Instant::now();
+    let mut a = props::seq_cfgs(prop, tier).remove(0);
+    if tier == Tier::Quick {
+        a.depth = a.depth.saturating_sub(1).max(3);
+    } else {
+        a.depth = a.depth.saturating_sub(2).max(4);
+    }
+    let mut b = a.clone();
+    a.opaques = vec![0];
+    b.opaques = vec![0xabad_cafe, 0xffff_ffff, 0x0000_0001, 0x8000_0000, 0x0000_ff00];
+    b.name = format!("{}/other-opaques", a.name);
+    let rep = pair::explore_diff(&a, &b, nthreads());
+    let violations = rep
+        .found
+        .iter()
+        .map(|f| Violation {
+            signature: f.signature.replace("config-differs", "opaque-dependent"),
+            what: format!("the same history with other opaque values: {}  after [{}]", f.detail, f.hist_text.join(" ; ")),
+            replay: json!({"engine": "opaque-differential", "property": prop, "history_text": f.hist_text}),
+        })
+        .collect();
+    CheckOutcome {
+        property: prop.to_string(),
+        tier: if tier == Tier::Quick { "quick".into() } else { "thorough".into() },
+        level: "model_checking",
+        coverage: json!({
+            "evaluations": rep.executions,
+            "distinct_nontrivial": rep.states,
+            "states": rep.states,
+            "transitions": rep.transitions,
+            "traces_validated_against_impl": rep.executions,
+            "depth_completed": rep.depth_reached,
+            "capped": rep.capped,
+            "exhaustive": rep.capped.is_none(),
+            "rule": "BFS over all command histories of the property's first alphabet, applied in-process to two stores: every request with opaque 0 on one, with opaques from {0xabadcafe, 0xffffffff, 1, 0x80000000, 0xff00} on the other; after every command the responses (without the echoed opaque) and the stores (keys, values, flags, expiry, CAS) must be equal",
+        }),
+        assumptions: vec![],
+        violations,
+        wall_s: t0.elapsed().as_secs_f64(),
+        machinery_error: rep.machinery_error,
+    }
+}
+
 fn check_seq(prop: &'static str, tier: Tier) -> CheckOutcome {
     let t0 = Instant::now();
     let cfgs = props::seq_cfgs(prop, tier);
@@ -369,13 +416,13 @@ fn replay(path: &str) -> i32 {
                 }
             }
         }
-        Some(e @ ("c09" | "c12" | "c13" | "c17" | "c18")) => {
+        Some(e @ ("c09" | "c12" | "c13" | "c17" | "c17-queued" | "c17-offset" | "c18")) => {
             sut::set_quiet(true);
             let r = match e {
                 "c09" => check_c09::replay(&v),
                 "c12" => check_c12::replay(&v),
                 "c13" => check_c13::replay(&v),
-                "c17" => check_c17::replay(&v),
+                "c17" | "c17-queued" | "c17-offset" => check_c17::replay(&v),
                 _ => check_c18::replay(&v),
             };
             match r {
@@ -434,7 +481,8 @@ fn main() {
                     let a = check_seq("C01", tier);
                     let b = check_sched::check("C01", tier, props_sched::c01_families(tier), &["linearizable", "no-panic", "deadlock", "livelock"], nthreads());
                     let t = a.tier.clone();
-                    report::merge("C01", &t, vec![("sequential_histories", a), ("concurrent_other_key_all_schedules", b)])
+                    let c = opaque_differential("C01", tier);
+                    report::merge("C01", &t, vec![("sequential_histories", a), ("concurrent_other_key_all_schedules", b), ("opaque_independence_differential", c)])
                 }
                 "C02" => check_seq("C02", tier),
                 "C03" => check_sched::check("C03", tier, props_sched::c03_families(tier), &["linearizable", "token-duplicated", "no-panic"], nthreads()),
@@ -448,7 +496,12 @@ fn main() {
                 "C16" => check_sched::check("C16", tier, props_sched::c16_families(tier), &["deadlock", "livelock"], nthreads()),
                 "C14c" => check_sched::check("C14", tier, props_sched::c14_families(tier), &["over-limit", "over-limit-after-race", "over-limit-after-quiet-race", "deadlock", "livelock", "no-panic"], nthreads()),
                 "C06" => check_seq("C06", tier),
-                "C07" => check_seq("C07", tier),
+                "C07" => {
+                    let a = check_seq("C07", tier);
+                    let b = opaque_differential("C07", tier);
+                    let t = a.tier.clone();
+                    report::merge("C07", &t, vec![("sequential_histories", a), ("opaque_independence_differential", b)])
+                }
                 "C08" => {
                     let a = check_seq("C08", tier);
                     let b = check_sched::check("C08", tier, props_sched::c08_families(tier), &["linearizable", "no-panic", "deadlock", "livelock"], nthreads());
@@ -504,7 +557,7 @@ fn main() {
                 }
                 "C15" => {
                     let a = check_seq("C15", tier);
-                    let b = check_sched::check("C15", tier, props_sched::c15_families(tier), &["usage-drift-concurrent", "deadlock", "livelock", "no-panic"], nthreads());
+                    let b = check_sched::check("C15", tier, props_sched::c15_families(tier), &["usage-overcount-concurrent", "usage-undercount-concurrent", "deadlock", "livelock", "no-panic"], nthreads());
                     let t = a.tier.clone();
                     report::merge("C15", &t, vec![("sequential_histories", a), ("concurrent_exact_programs_all_schedules", b)])
                 }
